@@ -178,6 +178,9 @@ fn run_case(line: &str) -> String {
 const NAMES: [&str; 23] = ["3_1", "4_1", "5_1", "5_2a", "5_2b", "6_1a", "6_1b", "6_2a", "6_2b", "6_3", "7_1", "7_2a", "7_2b",
     "7_3a", "7_3b", "7_4a", "7_4b", "7_5a", "7_5b", "7_6a", "7_6b", "7_7a", "7_7b"];
 
+/// D = auto_deloop off, E = auto_elim off, p / q = eliminate_all before / after finalize
+const SCHEDULES: [&str; 7] = ["Eq", "Epq", "D", "DEq", "DEpq", "Dq", "pq"];
+
 fn main() {
     quiet_panics();
     match parse_args() {
@@ -192,6 +195,7 @@ fn main() {
         Mode::Gen { seed, thorough, out } => {
             let mut o = Out::new(&out);
             let mut r = Rng::new(seed);
+            let mut r2 = Rng::new(seed.wrapping_add(0xC19)); // khw / khm sampling (keeps the older case set unchanged)
             let mut cases: Vec<String> = vec![];
             for name in NAMES.iter() {
                 let il = InvLink::load(name).unwrap();
@@ -212,17 +216,19 @@ fn main() {
                             cases.push(format!("cxh {} ; {}", red as u8, ls));
                             cases.push(format!("ssi {} ; {}", red as u8, ls));
                         }
-                        // builder option h_range: windows sliding over the whole support hmin..=hmax of the cone
+                        // builder option h_range: windows sliding over the whole support hmin..=hmax of the cone of 1+tau
+                        // (quick: every window of width 4 up to 7 crossings, a rotating quarter of them above)
                         let (hmin, hmax) = (-(q as isize), (n as isize) - (q as isize) + 1);
-                        let widths: Vec<isize> = std::env::var("C19_WIDTHS").ok().map(|s| s.split(',').map(|x| x.parse().unwrap()).collect())
-                            .unwrap_or(if thorough { vec![3, 4, 6] } else { vec![4] });
+                        let widths: Vec<isize> = if thorough { vec![3, 4, 6] } else { vec![4] };
                         for w in widths {
                             for a in (hmin - 1)..=(hmax - w + 1) {
+                                if !thorough && n > 7 && r2.chance(3, 4) { continue; }
                                 cases.push(format!("khw {} {} {} ; {}", red as u8, a, a + w, ls));
                             }
                         }
-                        // manual schedules
-                        for sc in ["Eq", "Epq", "D", "DEq", "DEpq", "Dq", "pq"] {
+                        // manual schedules (quick: all of them up to 5 crossings, a rotating subset above)
+                        for sc in SCHEDULES.iter() {
+                            if !thorough && ((n == 6 && r2.chance(4, 7)) || (n == 7 && r2.chance(6, 7)) || (n > 7 && r2.chance(20, 21))) { continue; }
                             cases.push(format!("khm {} {} ; {}", red as u8, sc, ls));
                         }
                     }
@@ -251,6 +257,15 @@ fn main() {
                         cases.push(format!("sym {} {} {} {} {} ; {}", red as u8, 1, p, q, oracle_ok as u8, ls));
                         cases.push(format!("ssi {} ; {}", red as u8, ls));
                         cases.push(format!("cxh {} ; {}", red as u8, ls));
+                        if thorough || (k == 0 && !red) {
+                            let (hmin, hmax) = (-(q as isize), (n as isize) - (q as isize) + 1);
+                            for a in (hmin - 1)..=(hmax - 3) {
+                                if !thorough && r2.chance(3, 4) { continue; }
+                                cases.push(format!("khw {} {} {} ; {}", red as u8, a, a + 4, ls));
+                            }
+                            let sc = SCHEDULES[r2.below(SCHEDULES.len() as u64) as usize];
+                            cases.push(format!("khm {} {} ; {}", red as u8, sc, ls));
+                        }
                     }
                 }
             }
